@@ -265,6 +265,27 @@ func (m *C06) OnCall(e *sim.Env, c *sim.Call) {
 			bad("no rule allows this transition")
 		}
 	}
+	// the stated threshold is "at least the minimum": an honest, funded stake of the minimum or more by a key that is
+	// free to stake is not refused
+	if msg, ok := stakeMsg(c); ok && c.Panic == "" && !deliverOK(c) && anteShouldPass(e, c) {
+		a := c.Meta.Signer
+		amt := msg.Value.BigInt()
+		pv, isVal := pre.Vals[a]
+		_, tomb := pre.Sign[a]
+		if tomb {
+			tomb = pre.Sign[a].Tombstoned
+		}
+		fee := bi(c.Meta.Spec.Fee)
+		if (!isVal || pv.Status == 0) && !tomb && amt.Cmp(bi(cp.Min)) >= 0 && amt.IsInt64() && msg.PubKey != nil &&
+			fmt.Sprintf("%T", msg.PubKey) == "crypto.Ed25519PublicKey" && hexs(msg.PubKey.Address().Bytes()) == a &&
+			pre.Bal(a).Cmp(add(amt, fee)) >= 0 {
+			e.Count("c06.valid_stakes_refused")
+			e.Violate("C06", "valid-stake-refused", fmt.Sprintf("stake of %v (minimum %d) by %s, funded (balance %v, fee %v), not a validator / unstaked, not tombstoned, was refused @%d with code %d: %s", amt, cp.Min, a, pre.Bal(a), fee, c.H, c.ResDeliver.Code, firstLine(c.ResDeliver.Log)), c)
+		}
+	}
+	if msg, ok := stakeMsg(c); ok && deliverOK(c) && msg.Value.BigInt().Cmp(bi(cp.Min)) == 0 {
+		e.Count("c06.stakes_of_exactly_the_minimum_accepted")
+	}
 	// timely payout: after EndBlock nobody may still be unstaking past its completion time
 	if c.Kind == "end" && c.Panic == "" {
 		for a, x := range post.Vals {
@@ -447,6 +468,13 @@ func (m *C09) OnCall(e *sim.Env, c *sim.Call) {
 		if msg, isUnjail := c.Meta.Tx.Msg.(posTypes.MsgUnjail); isUnjail {
 			e.Count("c09.unjail_refused")
 			a := hexs(msg.ValidatorAddr)
+			// every stated precondition holds (jailed, stake of at least the minimum, jailed-until reached, not
+			// tombstoned) and the request is an honest one of the validator itself: it is not refused
+			if v, ok := pre.Vals[a]; ok && v.Jailed && v.Status == 2 && c.Panic == "" && anteShouldPass(e, c) && c.Meta.Signer == a {
+				if s := pre.Sign[a]; s != nil && !s.Tombstoned && !c.Time.Before(s.JailedUntil) && v.Tokens.Cmp(bi(sim.ParamsOf(pre).Min)) >= 0 {
+					e.Violate("C09", "valid-unjail-refused", fmt.Sprintf("unjail of %s (stake %v, minimum %d, jailed until %v, now %v) was refused @%d with code %d: %s", a, v.Tokens, sim.ParamsOf(pre).Min, s.JailedUntil, c.Time, c.H, c.ResDeliver.Code, firstLine(c.ResDeliver.Log)), c)
+				}
+			}
 			if v, ok := pre.Vals[a]; ok && v.Jailed {
 				if s := pre.Sign[a]; s != nil && !s.Tombstoned && !c.Time.Before(s.JailedUntil) && v.Status == 2 && v.Tokens.Cmp(bi(sim.ParamsOf(pre).Min)) < 0 {
 					e.Count("c09.unjail_refused_below_raised_minimum")
